@@ -46,11 +46,17 @@ def derive_cm_table(ctx, chk, sc, ec, cls=SCORES, rule="R01.1"):
 
 
 VOCAB = {"count_lt", "count_le", "len", "inv"}
+# re-arrangements of the threshold that the permutation algebra of simp.mk_app did not cancel: the cell is a count at a
+# PERMUTED threshold (understood, and different from the count at the threshold itself)
+REARRANGE = {"getitem", "argsort", "reshape", "shape", "flatten"}
 
 
 def understood(term):
     """Only counting atoms over the object's own state and the threshold."""
+    permuted = any(isinstance(x, App) and x.fn == "argsort" for x in atoms_of(term))
     for a in atoms_of(term):
+        if permuted and isinstance(a, App) and a.fn in REARRANGE and all((not isinstance(x, Sym)) or x == T for x in atoms_of(a)):
+            continue
         if isinstance(a, App) and a.fn not in VOCAB:
             return False
         if isinstance(a, Sym) and a not in (POS, NEG, EP, EN, T):
@@ -97,7 +103,7 @@ def run(ctx, chk, tier):
                                       "the threshold is compared as given (a cast to the scores' / an integer dtype moves a threshold that is not representable there "
                                       "onto or across a score)", ctx.where(CMQ))
                     else:
-                        chk.unknown("R01.1", "cell %s of cm() is built from constructs outside the counting model: %s" % (inst, show(tab[name], 200)))
+                        chk.unknown("R01.1", "cell %s of cm() is built from constructs outside the counting model: %s" % (inst, show(tab[name], 600)))
             else:
                 chk.violation("R01.1", CMQ, inst, show(tab[name]), show(oracle[name]) + "   (README rule: accept iff score %s threshold)" % ACCEPT[(sc, ec)],
                               ctx.where(CMQ))
